@@ -1,5 +1,38 @@
 """C04 - no call sequence corrupts, over-reads or leaks memory (sanitizers + allocation conservation)."""
-from .. import sweeprun, histrun, common
+import os, re, shutil, subprocess
+from concurrent.futures import ThreadPoolExecutor
+from .. import sweeprun, histrun, common, build
+
+
+def fuzz(ck, target, runs, max_len, workers):
+    """coverage-guided hostile inputs (libFuzzer + ASan/UBSan, count-bounded): returns (executions, features covered)"""
+    binp = build.harness('shipped', 'fuzz', target)
+    corpus = os.path.join(build.HARNESS, 'fuzz_corpus', 'parser' if target == 'fuzz_parser' else 'crystal')
+
+    def one(k):
+        d = common.scratch('xv-fuzz-')
+        try:
+            work = os.path.join(d, 'corpus'); shutil.copytree(corpus, work)
+            p = subprocess.run([binp, '-runs=%d' % runs, '-seed=%d' % (ck.seed * 100 + k + 1), '-max_len=%d' % max_len, '-artifact_prefix=' + d + '/',
+                                '-print_final_stats=1', '-detect_leaks=1', work], cwd=d, stdout=subprocess.PIPE, stderr=subprocess.STDOUT, timeout=7200,
+                               env=dict(os.environ, ASAN_OPTIONS='allocator_may_return_null=1', UBSAN_OPTIONS='print_stacktrace=1'))
+            t = p.stdout.decode('utf8', 'replace')
+            m = re.search(r'stat::number_of_executed_units:\s*(\d+)', t)
+            cov = re.findall(r'cov: (\d+) ft: (\d+)', t)
+            if p.returncode != 0:
+                art = [f for f in os.listdir(d) if f.startswith(('crash-', 'leak-', 'timeout-', 'oom-'))]
+                data = open(os.path.join(d, art[0]), 'rb').read()[:400] if art else b''
+                mm = re.search(r'CONTRACT: ([^\n]*)', t) or re.search(r'ERROR: (?:AddressSanitizer|LeakSanitizer): ([^\n]*)', t) or re.search(r'runtime error: ([^\n]*)', t)
+                fr = re.findall(r'#\d+ 0x[0-9a-f]+ in (\S+) ' + re.escape(build.REPO), t)
+                what = mm.group(0)[:200] if mm else 'fuzz target died (rc %d)' % p.returncode
+                kind = 'contract' if 'CONTRACT' in what else re.sub(r'[^A-Za-z]+', '-', what)[:40]
+                ck.violation('fuzz:%s:%s:%s' % (target, kind, fr[0] if fr else '?'), what, dict(input=repr(data), seed=ck.seed * 100 + k + 1, tail=t[-1200:]))
+            return int(m.group(1)) if m else 0, int(cov[-1][1]) if cov else 0
+        finally:
+            shutil.rmtree(d, ignore_errors=True)
+    with ThreadPoolExecutor(workers) as ex:
+        res = list(ex.map(one, range(workers)))
+    return sum(r[0] for r in res), max([r[1] for r in res] + [0])
 
 
 def san_key(r, fn):
@@ -52,15 +85,20 @@ def main(tier):
         ck.violation(key, v['what'], dict(history_prefix=v['witness'], count=v['count']))
     if htot['steps'] < 10000 or len(hops) < 8:
         raise common.Inconclusive('allocation histories observed too little: %r' % (htot,))
+    # (d) coverage-guided fuzzing of the string entry points and of crystal-file contents
+    fz = {}
+    for target, runs, ml in (('fuzz_parser', 30000 if tier == 'quick' else 2000000, 160), ('fuzz_crystalfile', 15000 if tier == 'quick' else 1000000, 3000)):
+        fz[target] = fuzz(ck, target, runs, ml, 4 if tier == 'quick' else 8)
     if tot['calls'] < 50000 or len(fns) < 100:
         raise common.Inconclusive('sweep observed too little: %r calls over %d functions' % (tot['calls'], len(fns)))
     samples = [dict(function=k, calls=v['calls'], ok=v['ok'], err=v['err']) for k, v in sorted(fns.items())[:30:3]]
-    cov = dict(evaluations=tot['calls'] * 2 + htot['steps'], distinct_nontrivial=len(paths) + len(fns) + len(hops),
+    cov = dict(evaluations=tot['calls'] * 2 + htot['steps'] + sum(v[0] for v in fz.values()), distinct_nontrivial=len(paths) + len(fns) + len(hops),
                rule='ASan+UBSan build; every exported function x sampled argument space incl. INT_MIN/INT_MAX/+-2^16/+-2^20 for every int, '
                     'NULL and hostile strings; allocation balance read around every call (leak = grows on 3 of 3 repetitions); LSan at exit; '
                     'plus seeded allocation histories (length <= 200) over parser/catalogues/errors/crystals with random release order, replayed 3x for the balance; '
                     'distinct = functions driven + distinct (function, error path) pairs reached under the sanitizers + object kinds created in histories',
                samples=samples + [dict(history_objects=k[0], count=v) for k, v in sorted(hops.items())][:12], functions=len(fns),
+               fuzz_executions={k: v[0] for k, v in fz.items()}, fuzz_features_covered={k: v[1] for k, v in fz.items()},
                histories=htot['histories'], history_steps=htot['steps'], valgrind_histories=200 if tier == 'quick' else 2000, error_paths=len(paths), leak_rechecks=tot['leakchecks'],
                sanitizer='gcc -fsanitize=address,undefined -fno-sanitize-recover=all', configs=['shipped', 'kissel'])
     return ck.finish(cov, ['red-zone sanitizers miss non-adjacent overflows and reuse after quarantine',
